@@ -436,8 +436,8 @@ def tlaps_stage(w, ev, module, label, sync=None):
     import subprocess
     if sync:
         src, norm, names = sync
-        a = _tla_defs(norm(open(w.path(src)).read()), names)
-        b = _tla_defs(open(w.path(module)).read(), names)
+        a = _tla_defs(re.sub(r" *\\\*.*", "", norm(open(w.path(src)).read())), names)
+        b = _tla_defs(re.sub(r" *\\\*.*", "", open(w.path(module)).read()), names)
         bad = [n for n in names if a[n] is None or a[n] != b[n]]
         if bad:
             raise Infra("%s is out of sync with %s in the definitions %s" % (module, src, bad))
@@ -450,6 +450,12 @@ def tlaps_stage(w, ev, module, label, sync=None):
     if not m:
         raise Infra("tlapm could not re-check %s:\n%s" % (module, out[-2000:]))
     ev.cov["tlaps_obligations_proved"] = ev.cov.get("tlaps_obligations_proved", 0) + int(m.group(1))
+
+
+def _sharing_repaired(t):
+    """Sharing.tla with Bugs = {} substituted and the comments dropped."""
+    t = re.sub(r'IF "F\d+" \\in Bugs THEN ("w"|none) ELSE ("r"|cv\("onceMu"\))', r"\2", t)
+    return re.sub(r" *\\\*.*", "", t)
 
 
 def _once_unrecorded(t):
@@ -937,8 +943,11 @@ def run_c12(tier, seed, keep=False):
         # (1) design: the access protocol of concurrent calls, all interleavings, every sharing configuration
         for so in ("TRUE", "FALSE"):
             for sc in ("TRUE", "FALSE"):
-                exhaustive(w, "C12", "Sharing.tla", "S.cfg", "Spec", ["NoConflict"],
+                exhaustive(w, "C12", "Sharing.tla", "S.cfg", "Spec", ["NoConflict", "PosOK"],
                            {"G": "3" if q else "4", "Bugs": "{}", "ShareOpts": so, "ShareConvs": sc}, ev, "sharing-opts%s-convs%s" % (so, sc))
+        # (1b) any number of goroutines: no two accesses of different goroutines' programs conflict (TLAPS)
+        tlaps_stage(w, ev, "SharingProof.tla", "sharing-unbounded-proof",
+                    sync=("Sharing.tla", _sharing_repaired, ["Acc", "Program", "NoLock", "Conflict", "Cur", "Active", "NoConflict", "PosOK"]))
         # (2) the real code under the race detector, same sharing configurations
         race = w.build(race=True)
         n = 400 if q else 4000
